@@ -164,6 +164,15 @@ class ProbUGrammar(TaggedUGrammar[float, U, V, W]):
         program: Program,
         start: Optional[Tuple[Type, U]] = None,
     ) -> float:
+        if start is None:
+            # the derivation starts at the start symbol that derives the program:
+            # its probability is part of the product
+            for S in self.starts:
+                if self.__contains_rec__(program, S, self.start_information())[0]:
+                    return self.start_tags[S] * self.probability(program, S)
+            return 0
+        if not self.__contains_rec__(program, start, self.start_information())[0]:
+            return 0
         try:
             return self.reduce_derivations(
                 lambda current, S, P, V: current * self.tags[S][P][tuple(V)],  # type: ignore
